@@ -46,19 +46,20 @@ func n10FollowerHas(sl *SLock, key int) bool {
 }
 
 func n10RunExpiry(c *n10ExpCase) (info n10ExpInfo, key string, err error, inconclusive string) {
-	e, nerr := n09NewEnv(&n09Case{Kind: "cluster", Ring: 65536, RingMax: 65536, Followers: 1, NoLoop: !c.Real})
-	if nerr != nil {
-		return info, "", nil, "cannot start the cluster: " + nerr.Error()
+	// cluster with the handshake finished and an anchor hold that never expires (a position to converge to)
+	e, why := n10Cluster(nil, !c.Real)
+	if e == nil {
+		if strings.HasPrefix(why, "VIOLATION ") {
+			rest := why[10:]
+			k := rest
+			if i := strings.IndexByte(rest, '\n'); i > 0 {
+				k = rest[:i]
+			}
+			return info, k, fmt.Errorf("while preparing the cluster: %s", rest), ""
+		}
+		return info, "", nil, why
 	}
 	defer e.close()
-	if nerr = e.join(n09Op{K: "join", F: 0}); nerr != nil {
-		return info, "", nil, "cannot start the follower: " + nerr.Error()
-	}
-	// an anchor that never expires, so that there is always a position to converge to
-	e.send(n09Op{K: "lock", Key: 200, Id: 200, E: 3600, EF: 0x0100})
-	if _, viol, inc := e.syncAndCheck(false); inc != "" || viol != "" {
-		return info, "", nil, "anchor did not converge: " + inc + viol
-	}
 	for k := 0; k < c.Keys; k++ {
 		for d := 0; d <= c.Rc; d++ {
 			e.send(n09Op{K: "lock", Key: k, Id: 1, E: c.E, EF: 0x0100, Rc: c.Rc})
@@ -183,6 +184,13 @@ func TestC10_FollowerKeepsExpiredHold(t *testing.T) {
 			st.Exclude("follower clock runs beyond deadline + 300 s only to observe (known finding " + n10KeyNeverDrops + ")")
 		}
 		info, key, err, inc := n10RunExpiry(c)
+		for i := 0; i < 2 && inc != ""; i++ {
+			st.Class("inconclusive execution repeated", 1)
+			first := inc
+			if info, key, err, inc = n10RunExpiry(c); inc != "" {
+				inc = first
+			}
+		}
 		if inc != "" {
 			n09Inconclusive("C10 expiry: " + inc)
 		}
